@@ -265,6 +265,9 @@ package backend
 //@   ensures [floor-monotone] old(floor_set) ==> floor_set && floor >= old(floor)
 //@   ensures [accepted] err == nil ==> resp != nil && floor_set && floor >= resp.Header.Revision
 //@   ensures [never-past-an-unresolved-write] min_uncertain != 0 ==> resp != nil && resp.Header.Revision < min_uncertain
+//@   ensures [never-above-the-committed-revision] resp != nil && resp.Header != nil && resp.Header.Revision <= committed
+//@   ensures [the-requested-revision-when-it-is-allowed] revision != 0 && revision <= committed && (min_uncertain == 0 || revision < min_uncertain) ==> resp.Header.Revision == revision
+//@   ensures [zero-means-the-committed-revision] revision == 0 && min_uncertain == 0 ==> resp.Header.Revision == committed
 
 // ---- C13: advertised partitions ----
 // Clients stream [k_i, k_i+1) piece by piece and the scanner never adjusts the outer borders
